@@ -333,7 +333,19 @@ impl Display for Format<'_, Formula> {
             Formula::AtomicFormula(a) => Format(a).fmt(f),
             Formula::UnaryFormula { formula, .. } => self.fmt_unary(Format(formula.as_ref()), f),
             Formula::QuantifiedFormula { formula, .. } => {
-                self.fmt_unary(Format(formula.as_ref()), f)
+                // `forall X Y = 3` would be read as a quantification over X and Y: an atomic
+                // body whose text begins with a variable needs parentheses.
+                let inner = Format(formula.as_ref());
+                let begins_with_variable = matches!(formula.as_ref(), Formula::AtomicFormula(_))
+                    && inner
+                        .to_string()
+                        .starts_with(|c: char| c == '_' || c.is_ascii_uppercase());
+                if begins_with_variable {
+                    self.fmt_operator(f)?;
+                    write!(f, "({inner})")
+                } else {
+                    self.fmt_unary(inner, f)
+                }
             }
             Formula::BinaryFormula { lhs, rhs, .. } => {
                 self.fmt_binary(Format(lhs.as_ref()), Format(rhs.as_ref()), f)
